@@ -245,6 +245,22 @@ class NpCalls:
     def np_vstack(self, interp, st, args, kwargs, node):
         return self.np_concatenate(interp, st, args, kwargs, node, fn='vstack')
 
+    def np_putmask(self, interp, st, args, kwargs, node):
+        """np.putmask(a, mask, values): in-place a[mask] = values"""
+        if len(args) < 3:
+            return const(None)
+        base, mask, value = as_array(args[0]), args[1], args[2]
+        interp.emit('store', node, kind='putmask', base=base, index=mask, value=value, stmt=None)
+        tgt = node.args[0] if (node is not None and node.args) else None
+        new = base
+        if base.geo == ('FRAC', 'C') and closes_wrap(mask.cmp, interp.sx(tgt)) and is_zero_fill(value):
+            new = base.w(geo=('FRAC', 'W'))
+        if isinstance(tgt, ast.Name) and tgt.id in st.env:
+            st.env[tgt.id] = new
+        return const(None)
+
+    np_place = np_putmask
+
     def np_swapaxes(self, interp, st, args, kwargs, node):
         return self.swapaxes(as_array(args[0]), args[1], args[2]).w(deps=self.deps_of(args, kwargs)) if len(args) == 3 else as_array(args[0]).w(axes=None)
 
